@@ -25,33 +25,39 @@ theorem read_marshal_any_chunking (pid rest : Bytes) (cs : Reader)
     (hs : (encodeEstablish pid).length ≤ limit)
     (hcat : cs.flatten = marshalHeader pid ++ rest) :
     observe limit cs = .ok (pid, rest, (encodeEstablish pid).length) := by
-  sorry
+  have h := observeR_eq_flat limit cs
+  rw [hcat, readHeaderFlat_marshal limit pid rest hv hs hs] at h
+  exact h
 
 /-- The decoded result (success or the error) depends only on the byte stream, never on how
 it is split into reads — for arbitrary, also malformed, streams. -/
 theorem chunking_independent (max : Nat) (cs cs' : Reader) (h : cs.flatten = cs'.flatten) :
     observe max cs = observe max cs' := by
-  sorry
+  show observeR max cs = observeR max cs'
+  rw [observeR_eq_flat, observeR_eq_flat, h]
 
 /-- Whatever is accepted carries a valid (non-empty, UTF-8) protocol ID, and the buffer
 allocated for the header body is non-zero and within the limit. -/
 theorem accepted_valid_and_bounded (max : Nat) (cs : Reader) (pid : Bytes) (r : Reader) (a : Nat)
     (h : readHeader max cs = .ok (pid, r, a)) :
     pidValid pid = true ∧ 0 < a ∧ a ≤ max := by
-  sorry
+  exact readHeader_accepted max cs pid r a h
 
 /-- A zero length prefix is rejected, whatever follows. -/
 theorem zero_length_rejected (max : Nat) (cs : Reader) (tail : Bytes)
     (hcat : cs.flatten = 0 :: tail) (hlen : 3 ≤ tail.length) :
     ∃ e, readHeader max cs = .error e := by
-  sorry
+  refine ⟨.badLen, readHeader_error_of_observeR max cs _ ?_⟩
+  rw [observeR_eq_flat, hcat, readHeaderFlat_zero max tail hlen]
 
 /-- A length prefix above the limit is rejected without reading (or allocating) the body. -/
 theorem oversize_rejected (max n : Nat) (cs : Reader) (tail : Bytes)
     (hn : max < n) (hn64 : n < 2 ^ 64)
     (hcat : cs.flatten = Pb.append n ++ tail) :
     ∃ e, readHeader max cs = .error e := by
-  sorry
+  obtain ⟨e, he⟩ := readHeaderFlat_oversize max n tail hn hn64
+  refine ⟨e, readHeader_error_of_observeR max cs _ ?_⟩
+  rw [observeR_eq_flat, hcat, he]
 
 /-- A stream that ends before the announced header is complete is rejected. -/
 theorem truncated_rejected (pid : Bytes) (cs : Reader) (k : Nat)
@@ -60,7 +66,9 @@ theorem truncated_rejected (pid : Bytes) (cs : Reader) (k : Nat)
     (hk : k < (marshalHeader pid).length)
     (hcat : cs.flatten = (marshalHeader pid).take k) :
     ∃ e, readHeader limit cs = .error e := by
-  sorry
+  obtain ⟨e, he⟩ := readHeaderFlat_truncated limit pid k hs hs hne hk
+  refine ⟨e, readHeader_error_of_observeR limit cs _ ?_⟩
+  rw [observeR_eq_flat, hcat, he]
 
 /-- Non-vacuity: a concrete valid header, split awkwardly, with payload. -/
 example : observe limit [[5], [], [0x0a, 3, 0x61], [0x62, 0x63, 0xff], [0xee]]
